@@ -184,6 +184,48 @@ def run(ctx):
     ctx.sample({"random_line": [txt(t) for t in cases[-1]["line"]]})
     ctx.validate(SPEC, "ResolverTrace", "ResolverTrace.cfg", traces, cases=cases, name="recorded-resolutions", chunk=600)
 
+    # ---- extension beyond the listed property: the CommandCollection index itself (deviations are DRIFT)
+    r = ctx.model(SPEC, "MC_Collection", "MC_Collection_%s.cfg" % ctx.tier, name="command-collection-sequences", workers=4)
+    hs = T.emitted(r)
+    if len(hs) < 1000:
+        raise T.MachineryError("collection model emitted %d" % len(hs))
+    ctraces = [run_collection(h) for h in hs]
+    ctx.count(len(hs))
+    ctx.extra["collection_sequences_replayed"] = len(hs)
+    ctx.validate(SPEC, "CollectionTrace", "CollectionTrace.cfg", ctraces, cases=[{"collection_ops": h} for h in hs], name="collection-sequences", chunk=2500)
+
+
+COLL = {"c1": ("a", ["x"]), "c2": ("b", ["x", "y"]), "c3": ("a", ["y"]), "c4": ("c", [])}
+
+
+def run_collection(ops):
+    """CommandCollection with stand-in commands (name, short_name, aliases is all the collection looks at)"""
+    from clikit.api.command import CommandCollection
+
+    class Cmd(object):
+        def __init__(self, cid):
+            self.cid, self.name, self.short_name, self.aliases = cid, COLL[cid][0], None, list(COLL[cid][1])
+
+    coll = CommandCollection()
+    out = []
+    for op in ops:
+        ev = {"op": op["op"], "c": op.get("c", ""), "t": op.get("t", ""), "r": "none", "has": False, "order": [], "n": 0, "names": [], "aliases": []}
+        if op["op"] == "add":
+            coll.add(Cmd(op["c"]))
+        elif op["op"] == "get":
+            try:
+                ev["r"] = coll.get(op["t"]).cid
+            except Exception:  # noqa
+                ev["r"] = "none"
+            ev["has"] = op["t"] in coll
+        else:
+            ev["order"] = [c.cid for c in coll]
+            ev["n"] = len(coll)
+            ev["names"] = coll.get_names()
+            ev["aliases"] = [x for x in coll.get_names(True) if x not in ev["names"] or coll.get_names(True).count(x) > 1]
+        out.append(ev)
+    return out
+
 
 NAMES = ["srv", "add", "rm", "ls", "cfg", "get", "set", "run", "new"]
 
